@@ -168,14 +168,14 @@ class Ctx:
         self.bad(rule, key, "%s: a path through %s reaches the exit without it" % (what, fn.name), {"function": fn.name, "path": s.render_path(v.path)})
         return False
 
-    def before(self, rule, key, fn, use_pts, guard_pts, what):
+    def before(self, rule, key, fn, use_pts, guard_pts, what, reset_pts=()):
         if not use_pts:
             self.bad(rule, key + ":no-use-site", "no use site found for: " + what)
             return False
         if not guard_pts:
             self.bad(rule, key, "%s: guard not found at all in %s" % (what, fn.name), {"function": fn.name, "uses": [fn.loc(p) for p in use_pts]})
             return False
-        s = Search(fn, BeforeMonitor(use_pts, guard_pts))
+        s = Search(fn, BeforeMonitor(use_pts, guard_pts, reset_pts=reset_pts))
         v = s.run(False)
         if v is None:
             self.ok(rule, key, what + " (%d use(s), %d guard site(s), %d states)" % (len(use_pts), len(guard_pts), s.states),
